@@ -4,6 +4,7 @@ import csv
 import datetime
 import decimal
 import io
+import re
 from typing import Optional
 
 import beanquery
@@ -367,6 +368,13 @@ def _amount_like_check(kind, i, j, boxed, expand, nullvalue):
         nlines = [max(1, len(v.get_positions())) if v is not None else 1 for v in values]
     if len(body) != sum(nlines):
         return 'expansion-line-count'
+    if kind == 'inventory' and not expand and all(v is not None and len(v.get_positions()) <= 5 for v in values):
+        # tabular layout: every commodity has its own sub-column, so its symbol starts at the same offset in every row
+        blank = lambda ln: re.sub(r'\{[^}]*\}', lambda m: ' ' * len(m.group(0)), ln)      # noqa: E731  (cost annotations aside)
+        for cur in set.intersection(*[{p.units.currency for p in v.get_positions()} for v in values]):
+            offsets = {blank(ln).find(' ' + cur) for ln in body}
+            if len(offsets) > 1:
+                return f'commodity-sub-column-not-at-a-fixed-offset: {cur}'
     # every number and currency of the value is shown
     k = 0
     for v, n in zip(values, nlines):
